@@ -62,6 +62,50 @@ pub type Tree {
   Node { left: Tree, value: Int, right: Tree }
 }
 
+/// Explicit constructor tags across all three encodings of a constructor index
+/// (121+i for i<7, 1280+(i-7) for i<128, tag 102 with an explicit index from 128 on).
+pub type Spread {
+  @tag(6)
+  S6
+
+  @tag(7)
+  S7(Int)
+
+  @tag(127)
+  S127 { x: ByteArray }
+
+  @tag(128)
+  S128(Int)
+
+  @tag(129)
+  S129
+
+  @tag(1170)
+  S1170(Int, Int)
+}
+
+pub fn spread(s: Spread) -> Int {
+  when s is {
+    S6 -> 6
+    S7(n) -> n
+    S127 { x } -> builtin.length_of_bytearray(x)
+    S128(n) -> n + 128
+    S129 -> 129
+    S1170(a, b) -> a + b
+  }
+}
+
+@tag(12)
+pub type Solo {
+  owner: ByteArray,
+}
+
+@list
+pub type Flat {
+  name: ByteArray,
+  n: Int,
+}
+
 /// More than seven constructors: indices 7 and 8 use the second range of constructor tags.
 pub type Wide {
   W0
@@ -152,6 +196,11 @@ const PARAM_TYPES: &[(&str, &str)] = &[
     ("List<types.Item>", "1"),
     ("Option<types.Rec>", "when {p} is { Some(r) -> r.limit None -> 7 }"),
     ("types.Wide", "types.wide({p})"),
+    ("types.Spread", "types.spread({p})"),
+    ("types.Spread", "types.spread({p})"),
+    ("types.Solo", "builtin.length_of_bytearray({p}.owner)"),
+    ("types.Flat", "{p}.n"),
+    ("List<types.Spread>", "3"),
     ("List<types.Wide>", "2"),
     ("(types.Wide, Int)", "{p}.2nd"),
 ];
@@ -446,10 +495,20 @@ pub fn near_miss(d: &PlutusData, rng: &mut Rng) -> (PlutusData, &'static str) {
             PlutusData::Constr(c) => {
                 let ix = constr_index(c).unwrap_or(0);
                 let fields: Vec<PlutusData> = c.fields.clone().to_vec();
-                match rng.below(6) {
+                match rng.below(7) {
                     0 => {
                         *kind = "wrong-constructor-tag";
                         uplc::ast::Data::constr(ix + 1 + rng.below(3), fields)
+                    }
+                    6 => {
+                        // another index that shares the encoding range (and, from 128 on, the tag)
+                        *kind = "other-index-same-range";
+                        let other = match ix {
+                            0..=6 => (ix + 1 + rng.below(5)) % 7,
+                            7..=127 => 7 + (ix - 7 + 1 + rng.below(100)) % 121,
+                            _ => ix + 1 + rng.below(1200),
+                        };
+                        uplc::ast::Data::constr(other, fields)
                     }
                     1 => {
                         *kind = "right-tag-missing-field";
